@@ -64,8 +64,12 @@ def main():
     ap.add_argument('sid', nargs='?')
     ap.add_argument('--scale', type=float, default=0.5)
     ap.add_argument('--tier', default='quick')
+    ap.add_argument('--match', default=None, help='regex on the id (all: run a slice only)')
     a = ap.parse_args()
     es = entries()
+    if a.match:
+        import re
+        es = [e for e in es if re.search(a.match, e['id'])] if a.cmd == 'all' else es
     if a.cmd == 'list':
         for e in es:
             print(e['id'], e['property'], e['caught_by'], '-', e.get('what', '')[:100])
